@@ -239,14 +239,31 @@ def main():
     def m_clone_identity(e, m, a):
         return deref(e, a[0])
 
+    def vec_items(e, x):
+        x = deref(e, x)
+        if isinstance(x, tuple) and x[0] == "vec":
+            return x[1]
+        raise Unsupported("vector expected: %r" % (str(x)[:60],))
+
+    def m_vec_push(e, m, a):
+        vec_items(e, a[0]).append(a[1])
+        return ("unit",)
+
+    def m_vec_extend(e, m, a):
+        src = a[1]
+        items = src[1] if isinstance(src, list) and src and src[0] == "expr_iter" else vec_items(e, src)
+        vec_items(e, a[0]).extend(list(items))
+        return ("unit",)
+
     def m_fctx_new(e, m, a):
         return [a[0], a[1], a[2], a[3], 0]
 
     def m_dyn_call(e, m, a):
         fctx = deref(e, a[1][0])
         cur["node"].events.append(("invoke",))
-        cur["fctx"] = list(fctx)
-        return ("enum", "Result::Ok", [("abs_val", "returned")])
+        if "fctx" not in cur:
+            cur["fctx"] = list(fctx)   # the FunctionContext of the first invocation is what the obligations look at
+        return cur.get("fn_result", ("enum", "Result::Ok", [("abs_val", "returned")]))
 
     def m_box_deref(e, m, a):
         b = deref(e, a[0])
@@ -468,6 +485,16 @@ def main():
         (r"^<Vec<Expression> as Index<usize>>::index$", m_vec_index),
         (r"^<std::string::String as PartialEq<&str>>::eq$", m_string_eq_str),
         (r"^std::string::String::as_str$", m_as_str),
+        (r"^Vec::<Expression>::(?:with_capacity|new)$", lambda e, m, a: ("vec", [])),
+        (r"^Vec::<Expression>::push$", m_vec_push),
+        (r"^Vec::<Expression>::len$", lambda e, m, a: len(vec_items(e, a[0]))),
+        (r"^<Vec<Expression> as Deref>::deref$", lambda e, m, a: a[0]),
+        (r"^core::slice::<impl \[Expression\]>::iter$", lambda e, m, a: ["expr_iter", list(vec_items(e, a[0]))]),
+        (r"^<std::slice::Iter<'_, Expression> as Iterator>::cloned::<.*>$", lambda e, m, a: a[0]),
+        (r"^<Vec<Expression> as Extend<Expression>>::extend::<.*>$", m_vec_extend),
+        (r"^Vec::<Expression>::extend_from_slice$", m_vec_extend),
+        (r"^Vec::<Expression>::insert$", lambda e, m, a: (vec_items(e, a[0]).insert(a[1], a[2]), ("unit",))[1]),
+        (r"^<(?:IdedExpr|Expression) as Clone>::clone$", lambda e, m, a: deref(e, a[0])),
         (r"^core::str::<impl str>::strip_prefix::<(?:char|&str)>$", m_strip_prefix),
         (r"^std::option::Option::<&str>::unwrap_or$", lambda e, m, a: a[0][1] if a[0][0] == "Some" else a[1]),
         (r"^<std::string::String as Deref>::deref$", m_as_str),
@@ -954,7 +981,18 @@ def main():
     def order_access(opc):
         return 0 if opc == "INDEX" else 1
 
-    def run_call_scenario(nargs, has_target, declared, target_kind, name="f"):
+    # what the invoked function returns: a value, or one of the errors a call site could be tempted to react to
+    FN_RESULTS = {"value": ("enum", "Result::Ok", [("abs_val", "returned")]),
+                  "InvalidArgumentCount": ("enum", "Result::Err", [("enum", "ExecutionError::InvalidArgumentCount", [2, 1])]),
+                  "MissingArgumentOrTarget": ("enum", "Result::Err", [("enum", "ExecutionError::MissingArgumentOrTarget", [])]),
+                  "UndeclaredReference": ("enum", "Result::Err", [("enum", "ExecutionError::UndeclaredReference", [("arc", ("string", "inner"))])]),
+                  "FunctionError": ("enum", "Result::Err", [("enum", "ExecutionError::FunctionError", [("string", "f"), ("string", "msg")])])}
+    src_lib = open(os.path.join(repo, "interpreter/src/lib.rs")).read()
+    ebody = src_lib[src_lib.index("pub enum ExecutionError {"):]
+    ebody = ebody[:ebody.index("\n}")]
+    EXEC_ERR_DISC = {"ExecutionError::" + nme: k_ for k_, nme in enumerate(re.findall(r"^\s{4}([A-Z]\w*)\b", ebody, re.M))}
+
+    def run_call_scenario(nargs, has_target, declared, target_kind, name="f", fn_outcome="value"):
         """a call to a non-operator function"""
         nonlocal status
         node = Node(name, [("enum", "Result::Ok", [("abs_val", "arg%d" % j)]) for j in range(nargs)])
@@ -965,14 +1003,15 @@ def main():
         expr = [7, ("enum", "Expr::Call", [[("string", name), target, ("vec", [("operand", j) for j in range(nargs)])]])]
         pseudo = {0: expr}
         eng = new_engine()
+        eng.discriminants.update(EXEC_ERR_DISC)
         stats["scenarios"] += 1
-        desc = {"operator": "call %s/%d %s target, %s" % (name, nargs, "with" if has_target else "no", "declared" if declared else "undeclared"),
-                "opcode": "CALL", "operands": [target_kind] if has_target else [],
+        desc = {"operator": "call %s/%d %s target, %s%s" % (name, nargs, "with" if has_target else "no", "declared" if declared else "undeclared", "" if fn_outcome == "value" else ", the function returns " + fn_outcome),
+                "opcode": "CALL", "operands": [target_kind] if has_target else [], "function_outcome": fn_outcome,
                 "call_replay": [nargs, int(has_target), int(declared), int(target_kind == "err"), {"f": 0, "_f": 1, "@f": 2, ".f": 3}.get(name, 0)]}
 
         def entry(e):
             cur.clear()
-            cur.update({"node": node, "eq": eq_sym, "cmp_some": cmp_some, "ord": ord_sym, "declared": declared})
+            cur.update({"node": node, "eq": eq_sym, "cmp_some": cmp_some, "ord": ord_sym, "declared": declared, "fn_result": FN_RESULTS[fn_outcome]})
             node.events = []
             return e.call_fn(fn, [Ref(pseudo, 0, ()), Opaque("ctx")])
 
@@ -1003,8 +1042,8 @@ def main():
                         probs.append("FunctionContext.args are not the node's argument expressions, unevaluated and in order")
                     if fc[4] != 0:
                         probs.append("FunctionContext.arg_idx does not start at 0")
-                if not surely(same(res, ("enum", "Result::Ok", [("abs_val", "returned")]))):
-                    probs.append("the node's result is not what the function returned")
+                if not surely(same(res, FN_RESULTS[fn_outcome])):
+                    probs.append("the node's result is not what the function returned (%s): %s" % (fn_outcome, str(res)[:160]))
             if [tuple(x) for x in evs] != want:
                 probs.append("evaluation events %s, expected %s (each receiver/argument at most once; arguments are left to the function's extractors)" % (evs, want))
             if probs:
@@ -1067,6 +1106,11 @@ def main():
                         if not has_target:
                             # the root-qualified spelling `.f(..)`: the name with its dot is what is looked up and reported
                             run_call_scenario(nargs, has_target, declared, tk, ".f")
+                        if declared and tk != "err":
+                            # whatever the function returns - an error about its arguments included - is the node's result; the
+                            # call is made once
+                            for outcome in ("InvalidArgumentCount", "MissingArgumentOrTarget", "UndeclaredReference", "FunctionError"):
+                                run_call_scenario(nargs, has_target, declared, tk, "f", outcome)
         for opc in binary:
             for ks in itertools.product(kinds, kinds):
                 run_scenario(opc, list(ks))
